@@ -181,14 +181,19 @@ class Ctx:
             self.broken.append(("coq-build", "make %s failed (rc=%d): %s" % (" ".join(targets), rc, (out + err)[-1500:])))
             self.discharged = []
             return False
-        # recompile the (tiny) Props file alone to read the Print Assumptions output
-        lock = open(os.path.join(COQ, ".buildlock"), "w")
-        fcntl.flock(lock, fcntl.LOCK_EX)
+        # recompile the (tiny) Props file alone (output to build/, shared lock) to read the Print Assumptions output
+        lock = open(os.path.join(COQ, ".buildlock"), "a")
+        fcntl.flock(lock, fcntl.LOCK_SH)
+        tmpdir = os.path.join(BUILD, "props_%s_%d" % (self.pid, os.getpid()))
+        os.makedirs(tmpdir, exist_ok=True)
+        tmpvo = os.path.join(tmpdir, "%s.vo" % self.pid)
         try:
-            rc, out, err = self.run(["coqc", "-Q", ".", "Verif", "Props/%s.v" % self.pid], cwd=COQ, timeout=600)
+            rc, out, err = self.run(["coqc", "-Q", ".", "Verif", "-o", tmpvo, "Props/%s.v" % self.pid], cwd=COQ, timeout=600)
         finally:
             fcntl.flock(lock, fcntl.LOCK_UN)
             lock.close()
+            import shutil
+            shutil.rmtree(tmpdir, ignore_errors=True)
         if rc != 0:
             self.broken.append(("coq-props", "coqc Props/%s.v failed: %s" % (self.pid, (out + err)[-1500:])))
             return False
